@@ -177,3 +177,15 @@ def int_max(aff, box):
     neg = Aff(dict((v, -c) for v, c in aff.coeffs.items()), -aff.const, aff.kind)
     m = int_min(neg, box, implicit_nonneg=())
     return None if m is None else -m
+
+
+def safely(res, rule, site, fn, *args, **kwargs):
+    """Run one group of obligations; a construct the interpreter does not model makes that group *undecided*
+    (recorded, never a violation, never a crash)."""
+    from .model import AnalysisError
+    try:
+        return fn(*args, **kwargs)
+    except Unmodelled as e:
+        res.ob(rule, site, 'undecided: construct not modelled', True, str(e))
+        res.notes.append('%s %s: undecided - %s' % (rule, site, e))
+        return None
